@@ -277,8 +277,28 @@ func zzLog(s *State, a []Value) Value {
 
 func zzOut(s *State, a []Value) Value {
 	key := s.strArg(a[0])
-	s.outVals = append(s.outVals[:len(s.outVals):len(s.outVals)], outVal{key, a[1]})
+	s.outVals = append(s.outVals[:len(s.outVals):len(s.outVals)], outVal{key, s.snapshotOut(a[1])})
 	return nil
+}
+
+// snapshotOut copies the top-level slice of an output value so that later
+// writes by the harness do not change what was reported.
+func (s *State) snapshotOut(v Value) Value {
+	iv, ok := v.(Iface)
+	if !ok || iv.T == nil {
+		return v
+	}
+	sl, ok := iv.V.(Slice)
+	if !ok || sl.Obj == 0 {
+		return v
+	}
+	elems := s.sliceElems(sl)
+	arr := &Array{E: make([]Value, len(elems))}
+	for i, e := range elems {
+		arr.E[i] = copyVal(e)
+	}
+	id := s.heap.alloc(arr, s.heap.get(sl.Obj).T, "out")
+	return Iface{T: iv.T, V: Slice{Obj: id, Len: len(elems), Cap: len(elems)}}
 }
 
 func zzOutStr(s *State, a []Value) Value {
